@@ -143,3 +143,82 @@ def open_fuzz(tier, seed):
         'random bytes); 5 s wall-clock limit per case stands for "terminates"; peak allocation is not measured' % len(SEEDS)],
         functions=[dict(function='elftools/elf/elffile.py:ELFFile.__init__ + enumeration battery (sections, segments, symbols, dynamic, notes, '
                                  'versions, hash)', kind='bounded fault injection')], exhaustive=False)
+
+
+def _outcome(f):
+    try:
+        v = f()
+        if v is None or isinstance(v, (bool, int, str)):
+            return ('value', v)
+        if isinstance(v, list):
+            return ('value', [getattr(x, 'name', None) for x in v])
+        return ('value', getattr(v, 'name', type(v).__name__))
+    except _Timeout:
+        raise
+    except Exception as e:
+        return ('raises', type(e).__name__)
+
+
+def repeat_queries(data):
+    """C10 on corrupted files: an identical query repeated on one object gives the same outcome
+    (value or exception type) as the first time and as on a fresh object"""
+    from elftools.elf.elffile import ELFFile
+    from elftools.common.exceptions import ELFError
+    try:
+        ef = ELFFile(io.BytesIO(data))
+    except Exception:
+        return None
+    queries = [('has_section(".text")', lambda e: e.has_section('.text')),
+               ('get_section_by_name(".symtab")', lambda e: e.get_section_by_name('.symtab')),
+               ('get_section_index(".nonexistent")', lambda e: e.get_section_index('.nonexistent')),
+               ('num_sections()', lambda e: e.num_sections())]
+    for name, q in queries:
+        first = _outcome(lambda: q(ef))
+        second = _outcome(lambda: q(ef))
+        if first != second:
+            return '%s: first call %r, identical second call %r' % (name, first, second)
+    # symbol tables: lookup by name twice
+    try:
+        tabs = [s for s in ef.iter_sections() if s['sh_type'] in ('SHT_SYMTAB', 'SHT_DYNSYM')][:2]
+    except Exception:
+        tabs = []
+    for t in tabs:
+        first = _outcome(lambda: t.get_symbol_by_name('main'))
+        second = _outcome(lambda: t.get_symbol_by_name('main'))
+        if first != second:
+            return 'get_symbol_by_name("main") on %r: first call %r, identical second call %r' % (t.name, first, second)
+    return None
+
+
+@task('c10-repeat-query-fuzz', ['C10'], kind='bounded')
+def repeat_fuzz(tier, seed):
+    rng = random.Random(seed * 23 + 10)
+    d = _seed_dir()
+    obs = []
+    for name in SEEDS[:3] if tier == 'quick' else SEEDS:
+        data = open(os.path.join(d, name), 'rb').read()
+        bad = None
+        cases = 0
+        prev = signal.signal(signal.SIGALRM, _alarm)
+        try:
+            for what, mutated in faults(data, rng, tier):
+                cases += 1
+                signal.setitimer(signal.ITIMER_REAL, 5.0)
+                try:
+                    r = repeat_queries(mutated)
+                except _Timeout:
+                    r = None
+                finally:
+                    signal.setitimer(signal.ITIMER_REAL, 0)
+                if r:
+                    bad = dict(confirmed=True, how='the same query issued twice on ELFFile(io.BytesIO(mutated seed))',
+                               input='%s: %s' % (name, what), observed=r, expected='the same outcome both times')
+                    break
+        finally:
+            signal.signal(signal.SIGALRM, prev)
+        obs.append(dict(name='bounded:elf/elffile.py+sections.py:repeated-query[%s]' % name, kind='bounded',
+                        verdict='refuted' if bad else 'proved', backend='ground-eval(seeded fault injection, %d cases)' % cases, time=0.0,
+                        bounded=True, detail=bad and bad['observed'], native=bad))
+    return dict(obligations=obs, assumptions=['BOUNDED: name-map queries repeated on corrupted seed files (fault classes of C19)'],
+                functions=[dict(function='elftools/elf/elffile.py:get_section_by_name/get_section_index/has_section/_make_section_name_map; '
+                                         'sections.py:SymbolTableSection.get_symbol_by_name', kind='bounded fault injection')], exhaustive=False)
